@@ -1,11 +1,15 @@
 package props
 
 import (
+	"bufio"
 	"bytes"
 	"errors"
 	"fmt"
 	"io"
+	"os"
+	"path/filepath"
 	"strings"
+	"testing/iotest"
 
 	"gitlab.com/gomidi/midi/v2/smf"
 
@@ -19,13 +23,13 @@ func init() {
 		ID:    "C09",
 		Level: "exploration",
 		Rule: "schedule enumeration over io.Reader fragmentations: seeded valid files (incl. payloads above 4 KiB and alien chunks) and random truncations of them, each read from memory and through " +
-			"every single split point (exhaustive per file), one byte per Read, 5 random partitions, last bytes returned together with io.EOF, and random partitions + EOF-with-data; results compared as values or failure kinds. " +
+			"every single split point (exhaustive per file), one byte per Read, 5 random partitions, last bytes returned together with io.EOF, and random partitions + EOF-with-data; truncated files with more than 4 KiB of a large payload present through EOF-with-data, iotest.DataErrReader and bufio readers; real files (smf.ReadFile, os.File, bufio over os.File) with the second track chunk header swept over every offset of a window around 4096 (thorough: every offset up to 8400); results compared as values or failure kinds. " +
 			"distinct = distinct (file, fragmentation) pairs; non-trivial = the fragmenting reader returned at least one short count inside a multi-byte field read",
 		Assumptions: []string{
 			"fragmenting readers obey the io.Reader contract: at least one byte or an error per call for non-empty p; n > 0 may come together with io.EOF",
 			"failure kinds: ok / tracks missing / end-of-data family / other",
 		},
-		Require: []string{"fragmented_reads", "short_reads_in_multibyte_field", "split_points", "eof_with_data_reads", "truncated_files", "compared_ok_values", "compared_failures", "big_payload_files"},
+		Require: []string{"fragmented_reads", "short_reads_in_multibyte_field", "split_points", "eof_with_data_reads", "truncated_files", "compared_ok_values", "compared_failures", "big_payload_files", "big_truncated_reads", "file_and_bufio_reads"},
 		Run:     runC09,
 	})
 }
@@ -56,6 +60,7 @@ func (r *fragReader) Read(p []byte) (int, error) {
 }
 
 func runC09(c *mon.Ctx) {
+	runC09Sources(c)
 	c.Each("files", c.N(1000, 60_000), func(i int64, r *mon.Rand) {
 		f := gen.SMFFile(r, gen.FileOpts{MaxTracks: 4, MaxEvents: 12, AllowBig: false, Aliens: i%2 == 0, PaddedVLQ: true, Running: true})
 		if i%10 == 0 {
@@ -129,6 +134,154 @@ func runC09(c *mon.Ctx) {
 		if i < 1 {
 			c.Sample("file", map[string]any{"bytes": mon.Hex(head(b, 120)), "in-memory result": wk, "fragmentations": fmt.Sprintf("%d split points + one-byte + 5 random + data+EOF", limit-1)})
 		}
+	})
+}
+
+// runC09Sources: source kinds beyond plain fragmenting readers
+func runC09Sources(c *mon.Ctx) {
+	// (a) truncated files with more than 4 KiB of a large payload present, all reader flavours
+	c.Each("big-truncated", c.N(40, 600), func(i int64, r *mon.Rand) {
+		n := r.Pick(4097, 5000, 6000, 8193, 16385)
+		p := r.Bytes7(n)
+		big := ref.Meta(0x01, p)
+		if i%2 == 1 {
+			big = append(append([]byte{0xF0}, p...), 0xF7)
+		}
+		f := &ref.EncFile{Format: 0, Division: 96, NTracks: -1, Tracks: [][]ref.EncEv{{{Ev: ref.Ev{Delta: 1, Msg: []byte{0x90, 1, 1}}}, {Ev: ref.Ev{Delta: 0, Msg: big}}, {Ev: ref.Ev{Delta: 2, Msg: []byte{0x80, 1, 0}}}, {Ev: ref.Ev{Delta: 0, Msg: ref.EOT}}}}}
+		full := f.Bytes(nil)
+		start := bytes.Index(full, p[:16])
+		for _, present := range []int{0, 1, 100, 4095, 4096, 4097, 4500, n - 1, n, n + 3} {
+			cut := start + present
+			if cut > len(full) {
+				cut = len(full)
+			}
+			b := full[:cut]
+			want, werr := smf.ReadFrom(bytes.NewReader(b))
+			wk := failKind(werr)
+			for fl := 0; fl < 6; fl++ {
+				var rd io.Reader
+				label := ""
+				switch fl {
+				case 0:
+					rd, label = &fragReader{chunkReader: chunkReader{b: b, eofWithLast: true}}, "data+eof"
+				case 1:
+					ones := make([]int, len(b))
+					for j := range ones {
+						ones[j] = 1
+					}
+					rd, label = &fragReader{chunkReader: chunkReader{b: b, chunks: ones, eofWithLast: true}}, "one-byte+eof"
+				case 2:
+					rd, label = &fragReader{chunkReader: chunkReader{b: b, chunks: r.Partition(len(b), 700), eofWithLast: true}}, "partition+eof"
+				case 3:
+					rd, label = &fragReader{chunkReader: chunkReader{b: b, chunks: r.Partition(len(b), 5000)}}, "partition"
+				case 4:
+					rd, label = iotest.DataErrReader(bytes.NewReader(b)), "iotest.DataErrReader"
+				default:
+					rd, label = bufio.NewReaderSize(bytes.NewReader(b), 16+r.Intn(5000)), "bufio.Reader"
+				}
+				in := map[string]any{"file": fmt.Sprintf("%d of %d bytes; payload of %d bytes starts at %d, %d of it present", cut, len(full), n, start, present), "source": label}
+				var got *smf.SMF
+				var err error
+				if c.Guard("panic:fragmented", in, func() { got, err = smf.ReadFrom(rd) }) {
+					continue
+				}
+				c.Count("fragmented_reads", 1)
+				c.Count("big_truncated_reads", 1)
+				c.Eval(1)
+				if gk := failKind(err); gk != wk {
+					c.Violation("kind:big-truncated", fmt.Sprintf("%s: reading from memory gives %s (%v), %s gives %s (%v)", in["file"], wk, werr, label, gk, err), in, wk, gk)
+				} else if err == nil && ref.EqualFiles(fromLib(want), fromLib(got)) != "" {
+					c.Violation("value:big-truncated", fmt.Sprintf("%s: value read through %s differs from the in-memory read", in["file"], label), in, nil, nil)
+				}
+			}
+		}
+		c.DistinctBytes([]byte(fmt.Sprint("bigtrunc", i, n)))
+	})
+
+	// (b) real files and buffered readers: the second track chunk header at every offset of a 4 KiB window
+	//     (buffer refills of bufio / the OS page size fall on different fields)
+	dir := c.Dir
+	if dir == "" {
+		dir = os.TempDir()
+	}
+	lo, hi := 3990, 4200
+	if c.Thorough() {
+		lo, hi = 0, 8400
+	}
+	c.Each("offset-sweep", int64(hi-lo), func(i int64, r *mon.Rand) {
+		bodyLen := lo + int(i)
+		// track 1: one text meta sized so that the chunk body has bodyLen bytes (+ EOT)
+		var t1 []ref.EncEv
+		rest := bodyLen - 4
+		if rest >= 4 {
+			for l := rest - 4; l >= 0; l-- {
+				if 3+ref.VLQLen(uint32(l))+l <= rest {
+					t1 = append(t1, ref.EncEv{Ev: ref.Ev{Delta: 0, Msg: ref.Meta(0x01, bytes.Repeat([]byte{'t'}, l))}})
+					break
+				}
+			}
+		}
+		t1 = append(t1, ref.EncEv{Ev: ref.Ev{Delta: 0, Msg: ref.EOT}})
+		var t2 []ref.EncEv
+		for k := 0; k < 1500; k++ {
+			t2 = append(t2, ref.EncEv{Ev: ref.Ev{Delta: uint32(k % 3), Msg: []byte{0x90, byte(k & 127), byte(1 + k%100)}}, RS: true})
+		}
+		t2 = append(t2, ref.EncEv{Ev: ref.Ev{Delta: 0, Msg: ref.EOT}})
+		f := &ref.EncFile{Format: 1, Division: 480, NTracks: -1, Tracks: [][]ref.EncEv{t1, t2, {{Ev: ref.Ev{Delta: 0, Msg: ref.EOT}}}}}
+		b := f.Bytes(nil)
+		want, werr := smf.ReadFrom(bytes.NewReader(b))
+		if werr != nil {
+			c.Violation("offset-sweep-memory", fmt.Sprintf("valid file does not read from memory: %v", werr), bodyLen, nil, nil)
+			return
+		}
+		wf := fromLib(want)
+		path := filepath.Join(dir, fmt.Sprintf("sweep-%d-%d.mid", c.Shard, i))
+		if err := os.WriteFile(path, b, 0o644); err != nil {
+			c.Inconclusive("cannot write scratch file: " + err.Error())
+			return
+		}
+		defer os.Remove(path)
+		type src struct {
+			label string
+			read  func() (*smf.SMF, error)
+		}
+		srcs := []src{
+			{"smf.ReadFile", func() (*smf.SMF, error) { return smf.ReadFile(path) }},
+			{"bufio.NewReader(os.File)", func() (*smf.SMF, error) {
+				fh, err := os.Open(path)
+				if err != nil {
+					return nil, err
+				}
+				defer fh.Close()
+				return smf.ReadFrom(bufio.NewReader(fh))
+			}},
+			{"bufio.NewReaderSize(4096)", func() (*smf.SMF, error) { return smf.ReadFrom(bufio.NewReaderSize(bytes.NewReader(b), 4096)) }},
+			{"bufio.NewReaderSize(64)", func() (*smf.SMF, error) { return smf.ReadFrom(bufio.NewReaderSize(bytes.NewReader(b), 64)) }},
+			{"os.File", func() (*smf.SMF, error) {
+				fh, err := os.Open(path)
+				if err != nil {
+					return nil, err
+				}
+				defer fh.Close()
+				return smf.ReadFrom(fh)
+			}},
+		}
+		for _, sc := range srcs {
+			in := map[string]any{"first track body": bodyLen, "second MTrk header at offset": 14 + 8 + bodyLen, "file size": len(b), "source": sc.label}
+			var got *smf.SMF
+			var err error
+			if c.Guard("panic:source", in, func() { got, err = sc.read() }) {
+				continue
+			}
+			c.Count("file_and_bufio_reads", 1)
+			c.Eval(1)
+			if err != nil {
+				c.Violation("source-error:"+sc.label, fmt.Sprintf("a valid file of %d bytes (second track chunk at offset %d) reads from memory but not through %s: %v", len(b), 22+bodyLen, sc.label, err), in, "value", err.Error())
+			} else if d := ref.EqualFiles(wf, fromLib(got)); d != "" {
+				c.Violation("source-value:"+sc.label, fmt.Sprintf("%s gives a different value: %s", sc.label, d), in, nil, nil)
+			}
+		}
+		c.Enumerated(1)
 	})
 }
 
